@@ -15,21 +15,21 @@ CHECKS = {
     "C01": dict(
         category="exploration",
         technique="deterministic simulation: seeded operation histories and scoped programs with injected failures vs stack-of-maps model",
-        text="Seeded search over (a) operation histories on a real State (every registry and entry-API operation, explicit scope push/pop, with_inner_state and holding with closures that succeed or fail, nested) in lock-step with a Vec<BTreeMap> model: every return value and, after every operation, the content of every scope level must agree (the histories include reads/writes while a guard is alive and multi-borrows with write-through); (b) generated configurations whose probe leaves run such scripts, so that scopes are pushed and popped by the real Scope component, fault-free or with one injected failure that forces scope exits. Sampling, no exhaustive bound.",
+        text="Seeded search over (a) operation histories on a real State (every registry and entry-API operation, explicit scope push/pop, with_inner_state and holding with closures that succeed or fail, nested) in lock-step with a Vec<BTreeMap> model: every return value and, after every operation, the content of every scope level must agree (the histories include reads/writes and presence queries (contains, require, contains_at_top, find) while a guard is alive - a panic of a quiet accessor is an answer like any other - and multi-borrows with write-through); (b) generated configurations whose probe leaves run such scripts, so that scopes are pushed and popped by the real Scope component, fault-free or with one injected failure that forces scope exits. Sampling, no exhaustive bound.",
         note="Oracle is the stack-of-maps model in sim/src/engine/ops.rs. Apart from failure-forced scope exits the property contains no schedule or fault; most of this check is a reference-model history check driven by the simulator's seeded generator.",
         design_ref="5/C01",
     ),
     "C02": dict(
         category="exploration",
         technique="deterministic simulation: seeded guard histories vs reader/writer model, multi-borrow tuple catalogue, nested holding with failing closures",
-        text="Seeded search over guard micro-histories (guards kept alive in an arena while further shared/exclusive requests, reads, writes, drops, value get/set are issued at the top scope or at ancestors, the same type present in several scopes; panicking accessors under catch_unwind) against a reader-count/writer-flag model per (scope, type); a fixed catalogue of 175 type tuples of arity 2..8 (distinct, reversed, every single repeat, double repeat, absent types) against seeded scope layouts with distinctness of the returned references and visibility of writes; histories of holding nested to depth 3 with closure failures.",
+        text="Seeded search over guard micro-histories (guards kept alive in an arena while further shared/exclusive requests, reads, writes, drops, value get/set are issued at the top scope or at ancestors, presence queries under live guards, the same type present in several scopes; panicking accessors under catch_unwind) against a reader-count/writer-flag model per (scope, type); a fixed catalogue of 175 type tuples of arity 2..8 (distinct, reversed, every single repeat, double repeat, absent types) against seeded scope layouts with distinctness of the returned references and visibility of writes, plus requests that name field-less (zero-sized) marker states, which legitimately share an address; histories of holding nested to depth 3 with closure failures.",
         note="Oracle models in sim/src/checks/c02.rs and engine/ops.rs. No schedule is involved (the registry is single-threaded); the only faults are closure failures inside holding.",
         design_ref="5/C02",
     ),
     "C03": dict(
         category="fault_enumeration",
         technique="deterministic simulation: seeded configuration trees x every single fault point, trace vs reference interpreter",
-        text="Seeded search over generated configuration trees (real Block/Loop/Branch/Scope via ConfigurationBuilder, harness probe leaves and scripted conditions). For every tree the fault space is enumerated completely: fault-free, plus one execution per (leaf or condition, phase, occurrence) event of the reference trace with that event failing. Oracle: event-for-event equality with a reference interpreter (init once before any require, all requires before any execute, loop re-init/test/count, first error stops everything and is the error returned), then an audit of the caller's State after the run, also after Err: one scope level, every tracked type holds what the model says. Sampling over trees, exhaustive over single faults per tree.",
+        text="Seeded search over generated configuration trees (real Block/Loop/Branch/Scope via ConfigurationBuilder, harness probe leaves and scripted conditions). For every tree the fault space is enumerated completely: fault-free, plus one execution per (leaf or condition, phase, occurrence) event of the reference trace with that event failing. Oracle: event-for-event equality with a reference interpreter (init once before any require, all requires before any execute, loop re-init/test/count, first error stops everything and is the error returned), then an audit of the caller's State after the run, also after Err: one scope level, every tracked type holds what the model says. Scopes carry state-init/merge hooks (hooks that fill the child, hooks that leave it empty, hooks that seed a pass counter); the caller's state may already hold a pass counter; 30 % of the programs are resumed on the same state after an error. Sampling over trees, exhaustive over single faults per tree.",
         note="Trusts the reference interpreter in sim/src/engine/program.rs as the meaning of 'the corresponding structured program'. Leaves/conditions are harness stubs; control flow, builder, State/StateRegistry are real. At most one injected failure per execution.",
         design_ref="5/C03",
     ),
@@ -46,7 +46,7 @@ CHECKS["C10"] = dict(
 CHECKS["C15"] = dict(
     category="fault_enumeration",
     technique="deterministic simulation with fault injection: expected-log model vs decoded exports; simulated disk with create/ENOSPC-at-every-offset/short-write/EINTR/flush faults; /dev/full; configuration export of generated trees and all templates",
-    text="Log content: generated configurations with loggers and rule sets, fault-free or with one injected failure; the reference interpreter's expected log must equal the decoded JSON and CBOR exports. Export path: for each exported artefact (json, cbor, ron) the device-full fault is enumerated over every byte offset of the fault-free output, plus create, flush, short-write and EINTR faults on a simulated disk behind the cfg(mahf_verif) I/O seam: Ok(()) implies the bytes on disk decode to the expected content, transient faults must not fail the export; the same against the kernel's /dev/full without a hook. Configuration export: generated trees and all shipped templates serialise, show the pre-order sequence of components and parameters, equal their clone's, differ from a mutated configuration's; exporting over an existing longer file leaves exactly the new content. par_experiment's file set under simulated schedules and I/O faults.",
+    text="Log content: generated configurations with loggers and rule sets, fault-free or with one injected failure, rules that share an entry name over different sources (first fired rule wins); the reference interpreter's expected log must equal the decoded JSON and CBOR exports. Export path: for each exported artefact (json, cbor, ron) the device-full fault is enumerated over every byte offset of the fault-free output, plus create, flush, short-write and EINTR faults on a simulated disk behind the cfg(mahf_verif) I/O seam: Ok(()) implies the bytes on disk decode to the expected content, transient faults must not fail the export; the same against the kernel's /dev/full without a hook. Configuration export: generated trees and all shipped templates serialise, show the pre-order sequence of components and parameters, equal their clone's, differ from a mutated configuration's; exporting over an existing longer file leaves exactly the new content. par_experiment's file set under simulated schedules and I/O faults.",
     note="Sampling over logs/configurations; exhaustive over single ENOSPC offsets per artefact. The disk under faults is an in-memory stub; serde_json, ciborium, ron and std::fs are real. After an export returned Err nothing is claimed about the file.",
     design_ref="5/C15",
 )
@@ -57,7 +57,7 @@ _TW_NOTE = "Trusts the harness problems' pure reference objective and the cfg(ma
 CHECKS["C05"] = dict(
     category="exploration",
     technique="deterministic simulation: every shipped template stepped under a seeded generator, audit of every memory after every component execution; parallel evaluator on a simulated worker pool under seeded schedules",
-    text="Seeded search over all 21 shipped templates (plus two archive assemblies) with swarm-style valid parameters, instances with and without penalty regions (+inf), sequential evaluator; after EVERY child execution of every sequential block at every nesting level every evaluated individual in the population stack, best-so-far, elitist archive, personal/global bests and molecule memories must carry exactly F(solution). A second batch repeats the audit while the objectives are written by the simulated workers of evaluate::Parallel under seeded schedules. The individual-level clause is checked by seeded histories of Individual operations (construction, evaluation, every mutable access, clone / clone_from through Vec, slice and Option, population helpers) against an (solution, Option<objective>) model; assemblies of de::de / ga::ga run the shipped operators no template wires in by default; an assembly evaluates prepared populations (empty, runs of equal neighbours, evaluated next to unevaluated)." + _TW_FAULTS,
+    text="Seeded search over all 21 shipped templates (plus two archive assemblies) with swarm-style valid parameters, instances with and without penalty regions (+inf), sequential evaluator; after EVERY child execution of every sequential block at every nesting level every evaluated individual in the population stack, best-so-far, elitist archive, personal/global bests and molecule memories must carry exactly F(solution). A second batch repeats the audit while the objectives are written by the simulated workers of evaluate::Parallel under seeded schedules. The individual-level clause is checked by seeded histories of Individual operations (construction, evaluation, every mutable access, clone / clone_from through Vec, slice and Option, population helpers) against an (solution, Option<objective>) model; assemblies of de::de / ga::ga run the shipped operators no template wires in by default; an assembly evaluates prepared populations (empty, runs of equal neighbours, evaluated next to unevaluated); a user-defined modify-then-validate mutation on the public mutation() driver fails in the middle of an individual and the state the caller is left with after the failed run is audited; individual histories evaluate with a changing objective." + _TW_FAULTS,
     note=_TW_NOTE,
     design_ref="5/C05",
 )
@@ -78,35 +78,35 @@ CHECKS["C07"] = dict(
 CHECKS["C08"] = dict(
     category="exploration",
     technique="deterministic simulation: rayon replaced by a shuttle-scheduled simulated worker pool; seeded random/sticky/PCT schedules; digest comparison sequential vs parallel vs clone; par_experiment under schedules",
-    text="Same workload run with the sequential evaluator, through a cloned configuration, and with evaluate::Parallel on 1/2/3/4/8 simulated workers under several seeded schedules each (hand-out order of individuals is part of the schedule): the digest (population stack bits, best, counters, decoded log, next word of the generator) must be identical. Generators: children are a function of the seed, different seeds differ, children keep the backend, optimize_with keeps a supplied non-default generator and is repeatable. par_experiment (<= 6 runs x <= 3 problems) on the simulated pool: every (run, problem) digest and every decoded log file equals the run executed alone with Random::new(run) (or with the generator the setup function supplies); file set exact. Problems of one experiment have different domains; 3 % of the sequential-vs-parallel cases are large initialisations (>= 2^14 elements).",
+    text="Same workload run with the sequential evaluator, through a cloned configuration, and with evaluate::Parallel on 1/2/3/4/8 simulated workers under several seeded schedules each (hand-out order of individuals is part of the schedule): the digest (population stack bits, best, counters, decoded log, next word of the generator) must be identical. Generators: children are a function of the seed, different seeds differ, children keep the backend, optimize_with keeps a supplied non-default generator and is repeatable. par_experiment (<= 6 runs x <= 3 problems) on the simulated pool: every (run, problem) digest and every decoded log file equals the run executed alone with Random::new(run) (or with the generator the setup function supplies); file set exact. Problems of one experiment have different domains; 3 % of the sequential-vs-parallel cases are large initialisations (>= 2^14 elements), 6 % run a search with the four shipped diversity measures over populations of 1..80 (their states are part of the digest); seeds include 0..3 compared with their neighbours.",
     note="rayon's work-stealing scheduler and indicatif are stubs (shims/); a bug inside rayon is out of reach, a mahf change that makes results depend on which worker runs what, in what order, or how runs overlap is in reach. Interleavings are decided by a seeded scheduler at objective-call, queue and I/O granularity; a schedule is replayed from its seed and identified by the hash of the recorded task sequence.",
     design_ref="5/C08",
 )
 CHECKS["C16"] = dict(
     category="exploration",
     technique="deterministic simulation: all 21 templates x swarm-style valid parameters x seeds run to completion under a seeded generator with extreme-draw buggify; loop hook checks stack balance per pass",
-    text="Every shipped template constructor with parameters drawn from its documented valid ranges including boundary values (population 1-2, tournament = population, probabilities 0/1, y in {1,2}, tiny v_max, distance ratios up to 1e12), n in 0..120 iterations, no failing fault: the run returns Ok without panic, the iteration counter equals n with n+1 condition tests, the population stack has the same height at the end of every pass of every loop as at its beginning, one population at the end, population size after each pass within the template's prescription. A second batch forces one word of the random stream to 0 or u64::MAX (rare legal draws); a third runs the templates with evaluate::Parallel on the simulated worker pool under seeded schedules (run-end and per-pass monitors, and panics the sequential run does not have)." + _TW_FAULTS,
+    text="Every shipped template constructor with parameters drawn from its documented valid ranges including boundary values (population 1-2, tournament = population, probabilities 0/1, y in {1,2}, tiny v_max, distance ratios up to 1e12), n in 0..120 iterations (quick: 0..40 plus the bounds 49, 98, 103, 107 for which n*(1/n) != 1), no failing fault: the run returns Ok without panic, the iteration counter equals n with n+1 condition tests, the population stack has the same height at the end of every pass of every loop as at its beginning, one population at the end, population size after each pass within the template's prescription. A second batch forces one word of the random stream to 0 or u64::MAX (rare legal draws); a third runs the templates with evaluate::Parallel on the simulated worker pool under seeded schedules (run-end and per-pass monitors, and panics the sequential run does not have)." + _TW_FAULTS,
     note=_TW_NOTE,
     design_ref="5/C16",
 )
 CHECKS["C18"] = dict(
     category="exploration",
     technique="deterministic simulation: swarm-state monitors after every step of seeded PSO runs",
-    text="After every ParticleVelocitiesUpdate: |v| <= v_max, x_after == x_before + v_after bit-exactly, v_after inside the interval the update rule allows for the inertia weight STORED before the step (an equality when c1 = c2 = 0, which decides that the stored weight is the one used); after the linear mapping: weight == start + (end-start)*progress exactly; personal best == best value the particle was ever evaluated at and never worse; global best == min personal best after every swarm-update block and loop pass; velocities, personal bests and particles have equal length after every step. The progress is checked independently (iterations / n), also under the compound condition evaluations(e) | iterations(n). Fault: a foreign component removes or duplicates a particle between two swarm updates - the next update must refuse." + _TW_FAULTS,
+    text="After every ParticleVelocitiesUpdate: |v| <= v_max, x_after == x_before + v_after bit-exactly, v_after inside the interval the update rule allows for the inertia weight STORED before the step (an equality when c1 = c2 = 0, which decides that the stored weight is the one used); after the linear mapping: weight == start + (end-start)*progress exactly; personal best == best value the particle was ever evaluated at and never worse; global best == min personal best after every swarm-update block and loop pass; velocities, personal bests and particles have equal length after every step. The progress is checked independently (iterations / n), also under the compound condition evaluations(e) | iterations(n). Fault: a foreign component removes or duplicates a particle between two swarm updates - the next update must refuse. A second batch composes the identifier variants of the PSO components into a two-swarm search (Global and A, own populations, velocities and memories in one state) and compares every swarm's memories with an independently recorded per-particle history." + _TW_FAULTS,
     note=_TW_NOTE,
     design_ref="5/C18",
 )
 CHECKS["C19"] = dict(
     category="exploration",
     technique="deterministic simulation: tour/pheromone monitors after every generation and update along seeded ACO runs (reachable pheromone states), extreme-draw buggify",
-    text="Both ACO templates over 2..8 cities, distance ratios up to 1e12, 0..8 ants, alpha,beta in [0,5], rho in [0,1], up to 200 iterations so that long-evaporated trails are reached: after generation ants+1 tours, each a permutation of all cities starting at 0, unevaluated; after each update the matrix equals (1-rho)*before + deposits recomputed from the rewarded tours on exactly the consecutive-city edges in both directions (purely relative tolerance 1e-9, tour lengths taken from the instance at hand), symmetric, finite, non-negative, max-min: within bounds. Instances include asymmetric ones and units of length 1e-17..1e17." + _TW_FAULTS,
+    text="Both ACO templates over 2..8 cities, distance ratios up to 1e12, 0..8 ants, alpha,beta in [0,5] incl. exactly 0 and 1, rho in [0,1] incl. 0 and 1, initial trails incl. exactly 0, up to 200 iterations so that long-evaporated trails are reached: after generation ants+1 tours, each a permutation of all cities starting at 0, unevaluated; after each update the matrix equals (1-rho)*before + deposits recomputed from the rewarded tours on exactly the consecutive-city edges in both directions (purely relative tolerance 1e-9, tour lengths taken from the instance at hand), symmetric, finite, non-negative, max-min: within bounds. Instances include asymmetric ones and units of length 1e-17..1e17." + _TW_FAULTS,
     note=_TW_NOTE,
     design_ref="5/C19",
 )
 CHECKS["C20"] = dict(
     category="exploration",
     technique="deterministic simulation: energy ledger and (individual, molecule) pairing model around every reaction along seeded CRO runs",
-    text="CRO template runs over its nine parameters (buffer 0, initial KE 0, alpha 0, large beta, mole_coll 0/1 included), up to 300 iterations; around every elementary-reaction update: sum of objective values + kinetic energies + buffer unchanged (1e-9 relative), no negative kinetic energy or buffer, one molecule record per individual, pairs not involved in the reaction unchanged and in order, exactly two populations consumed. All four reactions are reached in accepted and rejected outcomes (probes). A second batch executes single reactions on hand-built three-population stacks (energies on grids around the acceptance threshold, negative objective values, equal individuals, same solution with different objective values, second reactant before the first, empty buffer)." + _TW_FAULTS,
+    text="CRO template runs over its nine parameters (buffer 0, initial KE 0, alpha 0, large beta, mole_coll 0/1 included), up to 300 iterations; around every elementary-reaction update: sum of objective values + kinetic energies + buffer unchanged (1e-9 relative to the sum of the absolute terms - no absolute floor, energies in units of 1e-20..1e15), no negative kinetic energy or buffer, one molecule record per individual, pairs not involved in the reaction unchanged and in order, exactly two populations consumed. All four reactions are reached in accepted and rejected outcomes (probes). A second batch executes single reactions on hand-built three-population stacks (energies on grids around the acceptance threshold, negative objective values, equal individuals, same solution with different objective values, second reactant before the first, empty buffer)." + _TW_FAULTS,
     note=_TW_NOTE,
     design_ref="5/C20",
 )
